@@ -160,7 +160,8 @@ def store(rng, s):
         s.stored = world.to_gz(s.plain, level=rng.choice((1, 6)), mtime=mt, name=rng.choice(("", "x.log")))
         s.path += ".gz"
         # the file itself was touched later (copied around): its own mtime must not matter
-        s.mtime = mt + rng.choice((0, 86400 * 400, 86400 * 1200))
+        # (later or earlier: an archive restored with an old time of its own is still dated by what its header says)
+        s.mtime = max(1, mt + rng.choice((0, 86400 * 400, 86400 * 1200, -86400 * 400, -86400 * 800)))
     elif form == "gz_header0":
         s.stored = world.to_gz(s.plain, level=6, mtime=0)
         s.path += ".gz"
@@ -177,7 +178,7 @@ def store(rng, s):
         base = s.path
         s.stored = world.to_tar([(base, s.plain, mt)], rng.choice(("ustar", "gnu", "pax")))
         s.path = base.replace(".log", "") + ".tar"
-        s.mtime = mt + rng.choice((0, 86400 * 400))
+        s.mtime = max(1, mt + rng.choice((0, 86400 * 400, -86400 * 400, -86400 * 800)))
     s.container = form
 
 
